@@ -524,9 +524,18 @@ def gen_format():
 SECTIONS["Format"] = gen_format
 
 
+def gen_multi():
+    """C02/C06: constants and structural anchors of the multi-threaded orchestration (tools/gen_multi.py)."""
+    import gen_multi as _gm
+    return _gm.generate()
+
+
+SECTIONS["Multi"] = gen_multi
+
+
 def render(section):
     lines = SECTIONS[section]()
-    hdr = ["(* GENERATED by tools/gen_tables.py from %s/src -- do not edit. *)" % REPO,
+    hdr = ["(* GENERATED by tools/gen_tables.py from the repository's src/ -- do not edit. *)",
            "From Coq Require Import List NArith ZArith.", "Import ListNotations.", ""]
     return "\n".join(hdr + lines) + "\n"
 
